@@ -29,7 +29,7 @@ TRANSFORMS_Q = [TRANSFORMS[1], TRANSFORMS[2], TRANSFORMS[3], TRANSFORMS[5], TRAN
 def plan(tier):
     tf = TRANSFORMS_Q if tier == "quick" else TRANSFORMS
     if tier == "quick":
-        specs = [(2, [("dense", 1, 4)], CONF_Q), (2, [("dense", 5, 5)], CONF_Q[::2]),
+        specs = [(2, [("dense", 1, 4)], CONF_Q), (2, [("dense", 5, 5)], CONF_Q[::2] + [CONF_Q[5]]),
                  (3, [("dense", 1, 3)], CONF_Q[::2] + CONF_Q[8:9]),
                  (2, [("near", 2, 3)], CONF_Q[::2]), (3, [("near", 2, 2)], CONF_Q[4:8])]
     else:
